@@ -403,9 +403,73 @@ def run(ctx):
         string_form_clauses(ctx, facts, roles, ts, cfg, "K4")
 
 
+def _appender_form(ctx, facts, roles, ts, cfg, K, want_const):
+    """The string form written as `let mut out = String::new(); append(&mut out, value); out` with a private appender
+    `fn(&mut String, &Value)`: the form of a kind is what the appender pushes onto its buffer under that kind.  Scalars are
+    read (exactly one push of the constant / of the payload's Display / of the string payload); the array case is read
+    for nesting evidence only (a position flag or slot list forwarded across nesting levels) and is otherwise UNDECIDED.
+    Returns True when the function has this form (the per-kind clauses were reported here)."""
+    r0 = strip_refs(ts.trace(0))
+    if not (r0[0] == "call" and r0[1] and re.search(r"^std::string::String::(new|with_capacity)$", r0[1]["path"]) and len(r0) > 3):
+        return False
+    app = None
+    for bi, t in ts.calls():
+        c = callee_of(t)
+        if c and c.get("local") and len(t["args"]) == 2:
+            a0 = strip_refs(ts.trace(t["args"][0]))
+            if a0[0] == "call" and len(a0) > 3 and a0[3] == r0[3] and strip_refs(ts.trace(t["args"][1])) == ("arg", 1):
+                it = facts.items.get(c["key"], {})
+                if it.get("inputs") and it["inputs"][0].replace(" ", "").endswith("mutstd::string::String") and it["inputs"][1].endswith("serde_json::Value"):
+                    app = facts.body(c["key"])
+    if app is None:
+        return False
+    from . import joinloop as JL
+    ev = JL.shared_state_across_nesting(facts, app) or JL.descends_into_elements(facts, app)
+    for v in facts.variants(VALUE):
+        key = "string form of %s (%s)" % (v, cfg)
+        restrict = P.specialise_unit(roles, app.key, lambda e, a, _v=v: _v if (a == VALUE and e == ("arg", 2)) else None)
+        blocks = restrict[app.key]
+        pushes = []
+        with app.restricted(blocks):
+            for bi in sorted(blocks):
+                t = app.blocks[bi]["term"]
+                if t["k"] != "Call":
+                    continue
+                p_ = callee_path(t) or ""
+                if re.search(r"^std::string::String::(push_str|push)$", p_) and strip_refs(app.trace(t["args"][0])) == ("arg", 1):
+                    pushes.append((p_.rsplit("::", 1)[1], strip_refs(app.trace(t["args"][1]))))
+                elif callee_of(t) and callee_of(t).get("local") and v != "Array":
+                    pushes.append(("call", callee_path(t)))
+        if v == "Array":
+            if ev:
+                ctx.fail(K + ".array-element", "string form of Array|nested arrays (%s)" % cfg, ev, where=app.where(), fn=app.key)
+            else:
+                ctx.unread(K + ".array-join", key, "the string form is written by a recursive appender into one buffer: the array case (separators, null elements, recursion on each element) is not read as an emission table", where=app.where(), fn=app.key)
+            continue
+        consts = sorted(const_value(x[1]) for k_, x in pushes if k_ == "push_str" and isinstance(x, tuple) and x[0] == "const")
+        if v in want_const:
+            ctx.check(len(pushes) == 1 and consts == [want_const[v]], K + ".string-form", key, "the appender writes %s for %s; expected %r" % ([show_expr(x)[:40] if isinstance(x, tuple) else x for _, x in pushes], v, want_const[v]), where=app.where(), fn=app.key, nontrivial=True)
+        elif v == "Bool":
+            disp = [x for k_, x in pushes if k_ == "push_str" and isinstance(x, tuple) and expr_mentions(x, lambda y: y[0] == "call" and y[1] and y[1]["path"].endswith("to_string") and "bool" in ((y[1].get("full") or "") + y[1]["path"]))]
+            good = consts == ["false", "true"] and len(pushes) == 2 or (len(pushes) == 1 and len(disp) == 1)
+            if good:
+                ctx.ok(K + ".string-form", key, nontrivial=True, sample={"kind": v, "form": "appender"})
+            else:
+                ctx.unread(K + ".string-form", key, "the appender's pushes for a boolean are not read: %s" % [show_expr(x)[:40] if isinstance(x, tuple) else x for _, x in pushes], where=app.where(), fn=app.key)
+        else:
+            x = pushes[0][1] if len(pushes) == 1 and pushes[0][0] == "push_str" else None
+            good = x is not None and expr_mentions(x, lambda y: y[0] == "downcast" and y[2] == v and strip_refs(y[1]) == ("arg", 2))
+            if v == "Number":
+                good = good and expr_mentions(x, lambda y: y[0] == "call" and y[1] and y[1]["path"].endswith("to_string") and "serde_json::Number" in ((y[1].get("full") or "") + y[1]["path"]))
+            ctx.check(bool(good), K + ".string-form", key, "the appender writes %s for %s" % ([show_expr(x_)[:60] if isinstance(x_, tuple) else x_ for _, x_ in pushes], v), where=app.where(), fn=app.key, nontrivial=True)
+    return True
+
+
 def string_form_clauses(ctx, facts, roles, ts, cfg, K="K4"):
     """Per-kind structure of the shared string form (used by C16 K4, C07 K5, C09 K5)."""
     want_const = {"Null": "null", "Object": "[object Object]"}
+    if _appender_form(ctx, facts, roles, ts, cfg, K, want_const):
+        return
     for v in facts.variants(VALUE):
         restrict = P.specialise_unit(roles, ts.key, lambda e, a, _v=v: _v if (a == VALUE and e == ("arg", 1)) else None)
         blocks = restrict[ts.key]
